@@ -177,6 +177,23 @@ func (ex *Exec) parseInto(fr *Frame, fsetP PtrV, filename, src string) (Value, b
 		ls.arr.v.(*ArrayV).elems[i] = tf.Const(64, uint64(l))
 	}
 	ex.callSSA(fr, ex.methodByName(types.NewPointer(ex.namedType("go/token", "File")), "SetLines"), []Value{tfile, ls}, nil)
+	// //line directives: the parser's alternative line infos (unexported), replayed through the real
+	// File.AddLineColumnInfo so that FileSet.Position reports the adjusted lines dst's fragment() sees
+	if ntf := nfset.File(token.Pos(1)); ntf != nil {
+		iv := reflect.ValueOf(ntf).Elem().FieldByName("infos")
+		if iv.IsValid() {
+			add := ex.methodByName(types.NewPointer(ex.namedType("go/token", "File")), "AddLineColumnInfo")
+			for i := 0; i < iv.Len(); i++ {
+				e := iv.Index(i)
+				get := func(name string) reflect.Value {
+					f := e.FieldByName(name)
+					return reflect.NewAt(f.Type(), unsafe.Pointer(f.UnsafeAddr())).Elem()
+				}
+				ex.callSSA(fr, add, []Value{tfile, tf.Const(64, uint64(get("Offset").Int())), ex.cstr(get("Filename").String()),
+					tf.Const(64, uint64(get("Line").Int())), tf.Const(64, uint64(get("Column").Int()))}, nil)
+			}
+		}
+	}
 	ctx := &convCtx{ex: ex, memo: map[uintptr]PtrV{}, shift: shift}
 	return ctx.conv(reflect.ValueOf(f), types.NewPointer(ex.namedType("go/ast", "File"))), hadErr
 }
